@@ -82,7 +82,8 @@ def generate(rng, tier: str, index: int) -> dict:
         if rng.chance(0.3):
             caps.append(['unknown', rng.choice([99, 128, 200]), rng.randint(0, 6)])
         if rng.chance(0.2):
-            caps.append(rng.choice(caps))  # duplicate
+            if caps:
+                caps.append(rng.choice(caps))  # duplicate
         rng.shuffle(caps)
         opens.append({'kind': kind, 'hold': rng.choice([0, 3, 9, 90, 180, 65535]), 'caps': caps, 'one_param': rng.chance(0.5), 'ext': rng.choice([None, None, True]), 'pad': rng.choice([0, 0, 300]), 'fit': rng.choice([None, None, 253, 254, 255, 255])})
     return {'micro_seed': rng.randint(1, 1 << 48), 'knobs': knobs(rng), 'conf': conf, 'opens': opens}
